@@ -68,8 +68,23 @@ def generate(seed, tier):
                         "delay": r.choice((0.5, 3.0, 12.0))})
         else:
             ops.append({"op": "sleep", "s": r.choice((0.0, 0.5, 4.0, 9.99, 10.0, 10.01, 25.0))})
+    short = r.random() < 0.15
+    if short:
+        # many short histories beat a few long ones: a race on the LAST update of a history is not healed by a later
+        # one.  Two or three operations ending with an update and a registration in flight together
+        cfg_i, regs = 1, 1
+        ops = [{"op": "publish", "cfg": 1, "tps": sorted(r.sample(range(1, N_SVC + 1), r.randrange(1, 4))), "bad": False,
+                "odd_metric": False}]
+        if r.random() < 0.4:
+            ops.insert(0, {"op": "sleep", "s": r.choice((0.0, 10.0))})
+        if r.random() < 0.4:
+            ops.append({"op": "sleep", "s": 10.01})
+            ops.append({"op": "publish", "cfg": 2, "tps": sorted(r.sample(range(1, N_SVC + 1), r.randrange(0, 3))),
+                        "bad": False, "odd_metric": False})
+        ops.append({"op": "register", "reg": 1, "at_poll": True})
     knobs = common.race_knobs(r, stall_p=r.choice((0.0, 0.0005, 0.003)), stall_ns=[10_000_000, 2_000_000_000])
-    return {"ops": ops, "line_level": r.random() < 0.7, "prober": r.random() < 0.5, "knobs": knobs,
+    return {"ops": ops, "line_level": short or r.random() < 0.7, "prober": r.random() < 0.5, "knobs": knobs,
+            "tmode": r.randrange(4),
             "svc_clock": r.choice(("steady", "steady", "steady", "zero", "backwards", "jumpy"))}
 
 
@@ -165,7 +180,15 @@ def execute(s, ch):
                                               os.path.join(src, "deep/api/tracepoint/trigger.py")),
                                           # strategy C: while the handler's configuration is being replaced, hand over
                                           # to the application thread that is running through the probed lines
-                                          targets={"new_config": ("prober", 0.5)} if s.get("prober") else None)
+                                          # ... and the other way round: while the application thread is matching an
+                                          # event, or one worker is applying an update, hand over to (another) worker
+                                          # (one direction per run: the two would hand the baton straight back)
+                                          targets=[{"new_config": ("prober", 0.5)} if s.get("prober") else {},
+                                                   {"__actions_for_location": ("pool-*", 0.3)} if s.get("prober") else {},
+                                                   # a worker that has just taken an update stands still for 0.05-3 s
+                                                   # (at its first line, or at a line drawn as it goes)
+                                                   {"update_listeners": ("@stall", 0.35, (50_000_000, 3_000_000_000))},
+                                                   {"update_listeners": ("@stall", 0.12, (50_000_000, 3_000_000_000), "any")}][s.get("tmode", 0)])
             tracer.install()
         w.start()
         handles = {}
